@@ -18,7 +18,7 @@ struct C14 : Harness {
         int bs = kind_bs(kind);
         bool tk = kind == T128 || kind == T64;
         p.push_back(mkop(std::string("new.") + kname(kind)).set("fill", *rc::gen::element(0, 0xA5, 0xFF)));
-        int huge = *rc::gen::element(0x7fffffff, (int)0x80000000, -1, 0x10000 + bs);
+        int huge = *ghuge(*rc::gen::element(bs, 2 * bs, 16, 6, 8));
         bool keyed = false;
         int n = *irange(3, 14);
         for (int i = 0; i < n; ++i) {
